@@ -34,17 +34,98 @@ def check(ctx):
     result_type(ctx, repo)
 
 
-def _branches(fd, specname="agg_specs"):
-    """{kind: (if-node, inner FunctionDef)} for tests `agg_specs['aggr'] == '<k>'`"""
-    out = {}
-    for n in ast.walk(fd):
-        if isinstance(n, ast.If) and isinstance(n.test, ast.Compare) and len(n.test.ops) == 1 and isinstance(n.test.ops[0], ast.Eq):
-            l, r = n.test.left, n.test.comparators[0]
-            if isinstance(r, ast.Constant) and isinstance(r.value, str) and "'aggr'" in ast.unparse(l):
-                inner = [x for x in n.body if isinstance(x, ast.FunctionDef)]
-                if len(inner) == 1:
-                    out[r.value] = (n, inner[0])
-    return out
+def _is_kernel(name):
+    return name.startswith("grouped_") or name.endswith("_by_p_id")
+
+
+def _resolve_kind(fd, k):
+    """partial evaluation of an aggregate factory for spec kind `k`: follows the if / match statements whose
+    subject is agg_specs['aggr'] (directly or through a local alias) and returns
+    (inner function definitions on the taken path, {local name: kernel bound to it}, raised?)"""
+    aliases, binds, inners = set(), {}, []
+    state = {"raised": False}
+
+    def is_aggr(e):
+        if isinstance(e, ast.Name):
+            return e.id in aliases
+        return isinstance(e, ast.Subscript) and isinstance(e.slice, ast.Constant) and e.slice.value == "aggr"
+
+    def test_val(t):
+        if isinstance(t, ast.Compare) and len(t.ops) == 1:
+            l, r, op = t.left, t.comparators[0], t.ops[0]
+            if is_aggr(r) and not is_aggr(l):
+                l, r = r, l
+            if is_aggr(l):
+                if isinstance(r, ast.Constant) and isinstance(op, (ast.Eq, ast.NotEq)):
+                    return (r.value == k) == isinstance(op, ast.Eq)
+                if isinstance(r, (ast.Tuple, ast.List, ast.Set)) and all(isinstance(x, ast.Constant) for x in r.elts) and isinstance(op, (ast.In, ast.NotIn)):
+                    return (k in [x.value for x in r.elts]) == isinstance(op, ast.In)
+            return None
+        if isinstance(t, ast.UnaryOp) and isinstance(t.op, ast.Not):
+            v = test_val(t.operand)
+            return None if v is None else not v
+        if isinstance(t, ast.BoolOp):
+            vs = [test_val(v) for v in t.values]
+            if isinstance(t.op, ast.And):
+                return False if False in vs else (True if all(v is True for v in vs) else None)
+            return True if True in vs else (False if all(v is False for v in vs) else None)
+        return None
+
+    def pat_matches(p):
+        if isinstance(p, ast.MatchValue) and isinstance(p.value, ast.Constant):
+            return p.value.value == k
+        if isinstance(p, ast.MatchOr):
+            return any(pat_matches(x) for x in p.patterns)
+        if isinstance(p, ast.MatchAs) and p.pattern is None:
+            return True
+        return None
+
+    def run(stmts, definite=True):
+        for st in stmts:
+            if state["raised"]:
+                return
+            if isinstance(st, ast.Assign) and len(st.targets) == 1 and isinstance(st.targets[0], ast.Name):
+                nm, v = st.targets[0].id, st.value
+                if is_aggr(v):
+                    aliases.add(nm)
+                elif isinstance(v, ast.Name) and _is_kernel(v.id):
+                    binds[nm] = v.id
+                elif isinstance(v, ast.Name) and v.id in binds:
+                    binds[nm] = binds[v.id]
+                elif isinstance(v, ast.Subscript) and isinstance(v.value, ast.Dict) and is_aggr(v.slice):
+                    for kk, vv in zip(v.value.keys, v.value.values):
+                        if isinstance(kk, ast.Constant) and kk.value == k and isinstance(vv, ast.Name):
+                            binds[nm] = vv.id
+                elif isinstance(v, ast.Subscript) and isinstance(v.value, ast.Name) and is_aggr(v.slice) and v.value.id in tables:
+                    if k in tables[v.value.id]:
+                        binds[nm] = tables[v.value.id][k]
+                elif isinstance(v, ast.Dict) and v.keys and all(isinstance(kk, ast.Constant) for kk in v.keys) and all(isinstance(vv, ast.Name) and _is_kernel(vv.id) for vv in v.values):
+                    tables[nm] = {kk.value: vv.id for kk, vv in zip(v.keys, v.values)}
+            elif isinstance(st, ast.FunctionDef):
+                inners.append(st)
+            elif isinstance(st, ast.If):
+                v = test_val(st.test)
+                if v is None:
+                    run(st.body, False)
+                    run(st.orelse, False)
+                else:
+                    run(st.body if v else st.orelse, definite)
+            elif isinstance(st, ast.Match) and is_aggr(st.subject):
+                for c in st.cases:
+                    m = pat_matches(c.pattern)
+                    if m and c.guard is None:
+                        run(c.body, definite)
+                        break
+            elif isinstance(st, ast.Raise):
+                if definite:
+                    state["raised"] = True
+                return
+            elif isinstance(st, (ast.With, ast.Try)):
+                run(st.body, definite)
+
+    tables = {}
+    run(fd.body)
+    return inners, binds, state["raised"]
 
 
 def dispatch(ctx, repo):
@@ -53,24 +134,31 @@ def dispatch(ctx, repo):
     ag = repo.module("aggregation.py")
     for facname, pat in (("_create_one_aggregate_by_group_func", "grouped_{k}"), ("_create_one_aggregate_by_p_id_func", "{k}_by_p_id")):
         fd = find_function(fl, facname, "primary anchor")
-        br = _branches(fd)
+        br = {}
+        for k in KINDS:
+            inners, binds, raised = _resolve_kind(fd, k)
+            if len(inners) == 1:
+                br[k] = (binds, inners[0])
+            elif len(inners) > 1:
+                raise AnalysisError(f"{facname}, kind {k!r}: {len(inners)} inner functions on the path selected by the kind; S-dispatch needs a re-read")
         missing = [k for k in KINDS if k not in br]
         if len(br) < 5:
             raise AnalysisError(f"{facname}: only {len(br)} kind branches recognised; S-dispatch needs a re-read")
         for k in missing:
             ctx.ob("S-dispatch", ok=False, distinct=(facname, k))
             ctx.violation("S-dispatch", f"{facname}|{k}|no-branch", fl.loc(fd), f"{facname} has no branch for aggregation kind {k!r}")
-        for k, (ifn, inner) in sorted(br.items()):
+        for k, (binds, inner) in sorted(br.items()):
             want = pat.format(k=k)
-            # the unique call of an aggregation kernel inside the inner function (returned directly or via a local)
-            kcalls = [n for n in ast.walk(inner) if isinstance(n, ast.Call) and isinstance(n.func, ast.Name) and (n.func.id.startswith("grouped_") or n.func.id.endswith("_by_p_id"))]
+            # the unique call of an aggregation kernel inside the inner function (returned directly or via a local);
+            # a name bound to a kernel by the dispatch (`agg = grouped_sum`) counts as that kernel
+            kcalls = [n for n in ast.walk(inner) if isinstance(n, ast.Call) and isinstance(n.func, ast.Name) and (_is_kernel(n.func.id) or n.func.id in binds)]
             if len(kcalls) != 1:
                 raise AnalysisError(f"{facname}, kind {k!r}: inner function does not contain exactly one kernel call; S-dispatch needs a re-read")
             ok = False
             msg = ""
             if True:
                 call = kcalls[0]
-                callee = call.func.id
+                callee = binds.get(call.func.id, call.func.id)
                 iparams = [a.arg for a in inner.args.args]
                 cargs = [ast.unparse(a) for a in call.args] + [f"{kw.arg}={ast.unparse(kw.value)}" for kw in call.keywords]
                 if callee != want:
